@@ -568,11 +568,13 @@ def emit_tables():
     def t_cleanup():
         cd = fn_consts(pp, 'cleanup_desc')
         SL('CLEANUP_CULL_LIST', list(assigned_literal(cd, 'cull_list')))
-        strip_args = []
+        strip_calls = []
         for n in ast.walk(cd):
             if isinstance(n, ast.Call) and isinstance(n.func, ast.Attribute) and n.func.attr in ('lstrip', 'strip', 'rstrip'):
                 if n.args and isinstance(n.args[0], ast.Constant):
-                    strip_args.append((n.func.attr, n.args[0].value))
+                    # EVALUATION order, not walk order: in `t.lstrip('.').strip(',; ')` the inner call ends first
+                    strip_calls.append(((n.end_lineno, n.end_col_offset), n.func.attr, n.args[0].value))
+        strip_args = [(a, b) for _pos, a, b in sorted(strip_calls)]
         L.append("def CLEANUP_STRIPS : List (String × String) := ["
                  + ', '.join(f"({lean_str(a)}, {lean_str(b)})" for a, b in strip_args) + "]")
     optional('cleanup_desc literals', t_cleanup)
@@ -724,6 +726,13 @@ def with_fallback(new_text, fname):
     if anchor is None:
         anchor = next(i for i, l in enumerate(lines) if l.startswith('end PyTRS.Gen'))
     lines[anchor:anchor] = carried
+    if fname == 'Patterns.lean':
+        # the registry `Gen.patterns` lists every pattern, the carried-over ones included
+        lines = [l for l in lines if not re.match(r'def patterns(_c\d+)? ', l)]
+        names = [m.group(1) for l in lines for m in [re.match(r'def (\S+) : Rx :=', l)] if m]
+        reg = [f"({lean_str(n)}, {n}, {n}_groups, {n}_ngroups)" for n in names]
+        end = next(i for i, l in enumerate(lines) if l.startswith('end PyTRS.Gen'))
+        lines[end:end] = chunked_list('patterns', 'List (String × Rx × List (String × Nat) × Nat)', reg, per=20).split('\n')
     return '\n'.join(lines), missing
 
 
